@@ -86,7 +86,7 @@ def run(spec):
             F = F + sc(us[0]) * sc(vs[len(subs) - 1]) * ds
             if kind == "facet":
                 F = F + jump(sc(us[0])) * avg(sc(vs[0])) * dS + avg(sc(us[len(subs) - 1])) * jump(sc(vs[0])) * dS
-        nblocks = len(subs)
+        nblocks = ncols = len(subs)
         targs = list(vs)
         uargs = list(us)
 
@@ -101,20 +101,36 @@ def run(spec):
             return m
     else:
         E = mixed_elements(cell, g)[spec["elem"]]
+        # rectangular systems: the trial space may be a different mixed element (or a plain one: a single column)
+        plain_elems = {"P1": el.P(cell, 1), "P2v": el.P(cell, 2, (g,))}
+        tname = spec.get("trial_elem")
+        Eu = E if tname is None else (plain_elems[tname] if tname in plain_elems else mixed_elements(cell, g)[tname])
         V = FunctionSpace(dom, E)
-        v, u = TestFunction(V), TrialFunction(V)
-        F = form_for(kind, v, u, f, dom)
+        v, u = TestFunction(V), TrialFunction(FunctionSpace(dom, Eu))
+        if kind == "rect":
+            nv = v.ufl_shape[0]
+            uc = [u] if u.ufl_shape == () else [u[l] for l in range(u.ufl_shape[0])]
+            F = sum((1 + k + 3 * l) * v[k] * uc[l] for k in range(nv) for l in range(len(uc))) * f * dx + uc[-1] * v[0] * ds
+        else:
+            F = form_for(kind, v, u, f, dom)
         nblocks = len(E.sub_elements)
-        sizes = []
-        for s in E.sub_elements:
-            sh = FunctionSpace(dom, s).value_shape
-            n = 1
-            for q in sh:
-                n *= q
-            sizes.append((n, sh))
-        offs = [0]
-        for n, _ in sizes:
-            offs.append(offs[-1] + n)
+        ncols = max(len(Eu.sub_elements), 1)
+
+        def layout(El):
+            subs = list(El.sub_elements) or [El]
+            sizes = []
+            for s in subs:
+                sh = FunctionSpace(dom, s).value_shape
+                n = 1
+                for q in sh:
+                    n *= q
+                sizes.append((n, sh))
+            offs = [0]
+            for n, _ in sizes:
+                offs.append(offs[-1] + n)
+            return offs, sizes, [FunctionSpace(dom, s) for s in subs]
+
+        lay = {v: layout(E), u: layout(Eu)}
         repl = spec.get("replace_argument", True)
 
         def overrides(i, j):
@@ -122,7 +138,10 @@ def run(spec):
             for a, k in ((v, i), (u, j)):
                 if a is u and linear:
                     continue
-                m[a] = ("embed", k, offs, sizes, [FunctionSpace(dom, s) for s in E.sub_elements], repl)
+                if a is u and not Eu.sub_elements:
+                    continue     # a plain trial function is left as it is
+                offs, sizes, spaces = lay[a]
+                m[a] = ("embed", k, offs, sizes, spaces, repl)
             return m
     r0 = repr(F)
     try:
@@ -143,13 +162,13 @@ def run(spec):
 
         good = isinstance(blocks, (tuple, list)) and len(blocks) == nblocks and (
             all(is_block(b) for b in blocks) if linear else
-            all(isinstance(row, (tuple, list)) and len(row) == nblocks and all(is_block(b) for b in row) for row in blocks))
+            all(isinstance(row, (tuple, list)) and len(row) == ncols and all(is_block(b) for b in row) for row in blocks))
         if not good:
             return outcome(name, "violated", detail=f"extract_blocks returned a structure that is not one block per sub-space "
-                           f"({'rank 1: ' + str(nblocks) if linear else 'rank 2: ' + str(nblocks) + ' x ' + str(nblocks)}): "
+                           f"({'rank 1: ' + str(nblocks) if linear else 'rank 2: ' + str(nblocks) + ' x ' + str(ncols)}): "
                            f"{type(blocks).__name__} of {[type(b).__name__ for b in blocks][:6]}", sample=sample,
                            witness={"structural": "block table shape"})
-    idxs = [(i, None) for i in range(nblocks)] if linear else list(itertools.product(range(nblocks), repeat=2))
+    idxs = [(i, None) for i in range(nblocks)] if linear else list(itertools.product(range(nblocks), range(ncols)))
     for (i, j) in idxs:
         ring.reset()
         if spec["space"] != "mfs" and spec.get("single"):
@@ -229,6 +248,12 @@ def specs(tier):
             for kind in ("bilinear", "facet", "linear", "linear_facet", "upper", "lower"):
                 S.append(dict(name=f"{cell}{g}/mfs/n={n}/{kind}", cell=cell, gdim=g, space="mfs", n=n, kind=kind,
                               twin=(n == 2 and kind == "bilinear")))
+    # rectangular systems (test and trial spaces with different numbers of sub-elements; a plain trial space)
+    for elem, telem in (("P2v_P1", "P1_P1_P1"), ("P1_P1_P1", "P2v_P1"), ("Sym_P1v_P1", "RT_DG"), ("P2v_P1", "P1"), ("P1_P1_P1", "P2v")):
+        for repl in (True, False):
+            for single in (False, True):
+                S.append(dict(name=f"triangle2/me/{elem}x{telem}/rect/repl={repl}/single={single}", cell="triangle", gdim=2,
+                              space="me", elem=elem, trial_elem=telem, kind="rect", replace_argument=repl, single=single))
     S.append(dict(name="triangle3/me/RT_DG/mass/repl=False/single=False", cell="triangle", gdim=3, space="me",
                   elem="RT_DG", kind="mass", replace_argument=False, single=False))
     S.append(dict(name="triangle3/me/N1_P1v/weighted/repl=False/single=False", cell="triangle", gdim=3, space="me",
